@@ -55,6 +55,8 @@ BOUNDS = {
     "pythonic_equiv": "12 feature toggles; each item varies the toggles of 2-3 groups over all their values with the others at a fixed baseline (all off / all on); 3 Python styles; 5 fixed event sequences; 2 builds per definition",
     "discovery": "one of 3 action slots (entry / transition / invoke.onDone) x 12 references with the other slots at a plain name, 8 guard forms (composites up to depth 3), 4 service forms; offered subset = symbolic bit per implementation the config can refer to (others offered); spelling snake/camel; provider kind in {instance, module}",
     "camel_map": "symbolic str, length <= L (item label)",
+    "rebuild_independence": "State objects shared by two build_machine() calls with different transition lists (3 plans), 4 forms of State.on (all-string shorthand, object values, mixed), flat / nested, user-side context mutation between builds; the user's definition objects must be unchanged and each build equal to its own JSON denotation",
+    "subclass_logic": "MachineLogic subclass chains of depth 1-3; the level that defines the action / guard / service symbolic (or every level = overrides)",
 }
 ASSUMPTIONS = [
     "the JSON denotation of each description is written by hand in this harness (independent of pythonic.py)",
@@ -827,6 +829,166 @@ def camel_map(s: str) -> bool:
     return verdict(why is None, nontrivial=len(s) > 0)
 
 
+def rebuild_independence(onform: int, order: int, nested: bool, ctxmut: bool) -> bool:
+    """
+    pre: gate('rebuild_independence', onform=onform, order=order, nested=nested, ctxmut=ctxmut)
+    post: _
+    """
+    from xstate_statemachine import create_machine
+    from xstate_statemachine.exceptions import XStateMachineError
+    from xstate_statemachine.pythonic import MachineBuilder, State, build_machine, transition
+
+    of = pick(onform, 4)
+    od = pick(order, 3)
+    # the user's State objects, shared by both builds
+    on_idle: Dict[str, Any] = [{"ABORT": "done"}, {"ABORT": {"target": "done", "actions": ["markOne"]}},
+                               {"ABORT": "done", "PING": {"actions": ["markTwo"]}}, {"ABORT": "done", "SKIP": "busy"}][of]
+    idle = State("idle", initial=True, on=on_idle, entry=["markTwo"], after={30: "busy"}, always={"target": "done", "guard": "isOdd"},
+                 tags=["t"], meta={"m": [1]})
+    busy = State("busy", on={"ABORT": "done"}, invoke={"src": "fetchData", "onDone": {"target": "done"}})
+    done = State("done", final=True)
+    tops: List[Any] = [idle, busy, done]
+    if nested:
+        tops = [State("W", initial=True, states=[idle, busy], on_done="done"), done]
+        busy.on = {"ABORT": "idle"}
+        busy.invoke = {"src": "fetchData", "onDone": {"target": "idle"}}
+        idle.always = {"target": "busy", "guard": "isOdd"}
+        idle.on = {k: (v if v != "done" else "busy") for k, v in on_idle.items()}
+        if isinstance(idle.on.get("ABORT"), dict):
+            idle.on["ABORT"] = {"target": "busy", "actions": ["markOne"]}
+    t_full = [transition(idle, "GO", busy, actions=["markOne"]), transition(busy, "GO", idle), transition(idle, "ABORT2", busy, guard="isOk")]
+    ctx = {"n": 1, "seen": []}
+    saved = copy.deepcopy({"idle.on": idle.on, "idle.after": idle.after, "idle.always": idle.always, "idle.entry": idle.entry, "idle.tags": idle.tags,
+                           "idle.meta": idle.meta, "busy.on": busy.on, "busy.invoke": busy.invoke, "ctx": ctx})
+
+    def expected(trs: List[Any]) -> Dict[str, Any]:
+        def st(s: Any) -> Dict[str, Any]:
+            c: Dict[str, Any] = {}
+            if s.final:
+                c["type"] = "final"
+            o = copy.deepcopy(saved.get(f"{s.name}.on") or {})
+            if s.name == "idle":
+                o[""] = copy.deepcopy(saved["idle.always"])
+                c["entry"] = "markTwo"
+                c["after"] = copy.deepcopy(saved["idle.after"])
+                c["tags"] = ["t"]
+                c["meta"] = {"m": [1]}
+            if s.name == "busy":
+                c["invoke"] = copy.deepcopy(saved["busy.invoke"])
+            for t in trs:
+                if t.source is s:
+                    e: Dict[str, Any] = {"target": t.target.name}
+                    if t.guard:
+                        e["guard"] = t.guard
+                    if t.actions:
+                        e["actions"] = list(t.actions)
+                    o[t.event] = e
+            if o:
+                c["on"] = o
+            return c
+        if nested:
+            states = {"W": {"initial": "idle", "states": {"idle": st(idle), "busy": st(busy)}, "onDone": {"target": "done"}}, "done": st(done)}
+            return {"id": "rb", "initial": "W", "context": copy.deepcopy(saved["ctx"]), "states": states}
+        return {"id": "rb", "initial": "idle", "context": copy.deepcopy(saved["ctx"]), "states": {"idle": st(idle), "busy": st(busy), "done": st(done)}}
+
+    plans = [[t_full, []], [[], t_full], [t_full[:1], t_full[1:]]][od]
+    acts, gs, svs = _fn_list()
+    why = None
+    try:
+        for k, trs in enumerate(plans):
+            m = build_machine(id="rb", states=tops, transitions=list(trs), actions=acts, guards=gs, services=svs, context=ctx)
+            ref = common.native(lambda: create_machine(expected(trs), logic=_json_logic()))
+            got = common.native(lambda: (c18.fingerprint(m), _traces_body(m)))
+            want = common.native(lambda: (c18.fingerprint(ref), _traces_body(ref)))
+            if got != want:
+                why = f"build #{k + 1} (transitions {[repr(t) for t in trs]}) differs from the machine its definition denotes: " + _first_diff(got, want)
+                break
+            if ctxmut:
+                ctx["seen"].append("user-side mutation")      # the user's dict changes between builds ...
+                saved["ctx"]["seen"].append("user-side mutation")   # ... and the next build must see exactly that
+            now = {"idle.on": idle.on, "idle.after": idle.after, "idle.always": idle.always, "idle.entry": idle.entry, "idle.tags": idle.tags,
+                   "idle.meta": idle.meta, "busy.on": busy.on, "busy.invoke": busy.invoke, "ctx": ctx}
+            if now != saved:
+                bad = [key for key in saved if now[key] != saved[key]]
+                why = f"build #{k + 1} (or running its machine) modified the user's definition objects: {bad}: {now[bad[0]]!r} was {saved[bad[0]]!r}"
+                break
+    except XStateMachineError as e:
+        why = f"rejected: {type(e).__name__}: {e}"
+    if why:
+        _note(f"on-form {of} order {od} nested={bool(nested)}: {why}")
+    return verdict(why is None)
+
+
+def subclass_logic(la: int, lg: int, ls: int, depth: int) -> bool:
+    """
+    pre: gate('subclass_logic', la=la, lg=lg, ls=ls, depth=depth)
+    post: _
+    """
+    from xstate_statemachine import MachineLogic, SyncInterpreter, create_machine
+    from xstate_statemachine.exceptions import ImplementationMissingError
+
+    d = 1 + pick(depth, 3)                 # number of class levels below MachineLogic
+    levels = [pick(x, d + 1) for x in (la, lg, ls)]     # the level that defines the action / guard / service; == d means "every level" (overrides)
+    ran: List[str] = []
+
+    def mk(kind: str, lvl: int) -> Any:
+        if kind == "a":
+            def doIt(self: Any, i: Any, c: Any, e: Any, a: Any) -> None:
+                ran.append(f"a@{lvl}")
+            return doIt
+        if kind == "g":
+            def isOk(self: Any, c: Any, e: Any) -> bool:
+                ran.append(f"g@{lvl}")
+                return True
+            return isOk
+
+        def fetchData(self: Any, i: Any, c: Any, e: Any) -> Any:
+            ran.append(f"s@{lvl}")
+            return 1
+        return fetchData
+
+    base: Any = MachineLogic
+    for lvl in range(d):
+        ns: Dict[str, Any] = {}
+        for kind, name, where in (("a", "doIt", levels[0]), ("g", "isOk", levels[1]), ("s", "fetchData", levels[2])):
+            if where == lvl or where == d:
+                ns[name] = mk(kind, lvl)
+        base = type(f"L{lvl}", (base,), ns)
+    cfg = {"id": "sl", "initial": "a", "states": {
+        "a": {"on": {"GO": {"target": "b", "guard": "isOk", "actions": ["doIt"]}}},
+        "b": {"invoke": {"src": "fetchData", "onDone": {"target": "c"}}}, "c": {}}}
+    why = None
+    try:
+        logic = base()
+        m = create_machine(cfg, logic=logic)
+        for name, reg in (("doIt", logic.actions), ("isOk", logic.guards), ("fetchData", logic.services)):
+            if name not in reg:
+                why = f"'{name}' (defined {['on level ' + str(x) if x < d else 'on every level' for x in levels]}) is not registered by the {d}-level MachineLogic subclass"
+        if why is None:
+            def run() -> Optional[str]:
+                vthread.SCHED.reset(0.0)
+                it = SyncInterpreter(m)
+                try:
+                    it.start()
+                    it.send("GO")
+                except ImplementationMissingError as e:
+                    return f"run time ImplementationMissingError: {e}"
+                finally:
+                    it.stop()
+                return None
+            why = common.native(run)
+        if why is None:
+            # the most derived definition is the one that runs
+            want = sorted(f"{k}@{(lv if lv < d else d - 1)}" for k, lv in zip("ags", levels))
+            if sorted(ran) != want:
+                why = f"implementations that ran: {sorted(ran)}, expected {want}"
+    except ImplementationMissingError as e:
+        why = f"creation failed: {e}"
+    if why:
+        _note(f"{d}-level subclass, levels {levels}: {why}")
+    return verdict(why is None)
+
+
 def kf_discovery_builtin_named(slot: Any = 0, a: Any = 0, **_k: Any) -> bool:
     """Known finding C19-discovery-ignores-user-builtin-name: the config references the action 'log' (string or object
     form, ACTION_REFS[4] / ACTION_REFS[10]) in the entry or transition slot and the provider offers a method 'log'."""
@@ -842,7 +1004,8 @@ def kf_precedence_via_discovery(which: Any = 0, how: Any = 0, **_k: Any) -> bool
     return how == 2
 
 
-OBLIGATIONS = {"pythonic_equiv": pythonic_equiv, "discovery": discovery, "precedence": precedence, "camel_map": camel_map}
+OBLIGATIONS = {"pythonic_equiv": pythonic_equiv, "discovery": discovery, "precedence": precedence, "camel_map": camel_map,
+               "rebuild_independence": rebuild_independence, "subclass_logic": subclass_logic}
 PROBES = {
     "pythonic_equiv": [{"style": 0, "v0": 1}, {"style": 2, "v0": 1}, {"style": 0, "v0": 3}, {"style": 2, "v0": 3, "v1": 1}, {"style": 1, "v0": 1, "v1": 1}],
     "discovery": [{"mask": 127}, {"mask": 111}, {"a": 10, "mask": 127}, {"a": 4, "slot": 1, "mask": 127}, {"a": 6, "slot": 2, "mask": 127}],
@@ -867,5 +1030,7 @@ def items(tier: str, seed: int) -> List[Dict[str, Any]]:
                     out.append({"ob": "discovery", "params": {"gfix": gfix, "kind": kind, "slot": slot}, "timeout": 2400,
                                 "label": f"discovery[guard form {gfix},{'provider' if kind == 0 else 'module'},slot {slot}]"})
     out.append({"ob": "precedence", "params": {}, "timeout": 300, "label": "precedence"})
+    out.append({"ob": "rebuild_independence", "params": {}, "timeout": 400, "label": "rebuild_independence"})
+    out.append({"ob": "subclass_logic", "params": {}, "timeout": 300, "label": "subclass_logic"})
     out.append({"ob": "camel_map", "params": {"L": 3 if quick else 4}, "timeout": 300 if quick else 2400, "label": f"camel_map[L<={3 if quick else 4}]"})
     return out
